@@ -79,30 +79,45 @@ def histories(run, r, uniq, n_per_front):
                                                                                                        '; final store differs' if got == want else ''))
 
 
-def datagram_histories(run, r, uniq, n_per_front):
-    """C09 over real UDP sockets (sync server thread, Twisted reactor child): one request per datagram; every datagram must be
-    answered with exactly the datagram(s) the in-process driver produced for it"""
-    for front in ('sync-udp', 'tw-udp'):
-        for i in range(n_per_front if front != 'tw-udp' else max(4, n_per_front // 4)):
-            case = SH.gen_case(r, front, 'tcp', uniq, max_per_read=1)
+def datagram_histories(run, r, uniq, n_per_front, fronts=('sync-udp', 'tw-udp'), big=False):
+    """C09 / C17 over real UDP sockets (sync server thread, Twisted reactor child): every datagram must be answered with exactly
+    the datagram(s) the in-process driver produced for it.  big: datagrams longer than one serial ADU (an ASCII-framed write of
+    many registers, many pipelined MBAP requests in one datagram) - what a receive buffer sized for one ADU would cut"""
+    for front in fronts:
+        for i in range(n_per_front if front != 'tw-udp' else max(2, n_per_front // 4)):
+            framing = 'tcp'
+            if big:
+                framing = ('ascii', 'tcp')[i % 2]
+                case = SH.gen_case(r, front, framing, uniq, data_only=True, max_per_read=(1 if framing == 'ascii' else 40), nreq=(3 if framing == 'ascii' else 40), allow_foreign=False)
+                if framing == 'ascii':
+                    u = int(sorted(case['layout']['units'])[0])
+                    uniq[0] += 200
+                    case['reads'].insert(1, [[u, 4242, {'dir': REQ, 'fc': 16, 'address': 1, 'registers': [(uniq[0] + j) & 0xFFFF for j in range(61 + i % 60)]}]])
+                else:
+                    case['reads'] = [[fr for rd in case['reads'] for fr in rd]]            # everything in one datagram
+                    for k, fr in enumerate(case['reads'][0]):
+                        fr[1] = 100 + k
+            else:
+                case = SH.gen_case(r, front, 'tcp', uniq, max_per_read=1)
             if front == 'tw-udp':
                 case['flags']['broadcast_enable'] = False
             if SH.regions(case):
                 continue
             ex = SH.execute(case)
-            problems, _ = SH.match('tcp', ex['exp'], ex['out_frames'])
+            problems, _ = SH.match(framing, ex['exp'], ex['out_frames'])
             if problems or ex['parse_error']:
                 continue                                # judged (and reported) by the in-process part of the check
             want = [b for b in ex['res'].per_read]      # bytes written in reaction to each datagram
             repo.reset_globals()
             try:
-                srv, blocks = start(front, 'tcp', case['layout'], case['flags'] if front != 'tw-udp' else {k: v for k, v in case['flags'].items() if k == 'ignore_missing_slaves'})
+                srv, blocks = start(front, framing, case['layout'], case['flags'] if front != 'tw-udp' else {k: v for k, v in case['flags'].items() if k == 'ignore_missing_slaves'})
             except Exception as e:  # noqa
                 run.watchdogs += 1
                 run.observed['loopback_start_error'] = repr(e)[:200]
                 continue
             try:
-                got = RN.udp_exchange(srv.port, ex['reads'], expect=[1 if w else 0 for w in want], wait=2.0)
+                nexp = [len(ADU.parse_stream(framing, RSP, w)[0]) if w else 0 for w in want]      # one answer datagram per request
+                got = RN.udp_exchange(srv.port, ex['reads'], expect=nexp, wait=2.0)
                 time.sleep(0.02)
                 dump = SM.norm_dump(SM.dump(blocks, case['layout']['zero_mode'])) if blocks else None
             finally:
@@ -112,6 +127,12 @@ def datagram_histories(run, r, uniq, n_per_front):
             run.count('loopback_datagrams', len(got))
             ok = per == want and (dump is None or dump == ex['model'].dump())
             late = (not ok) and any(w and not p for w, p in zip(want, per)) and all((p == w or not p) for w, p in zip(want, per))
+            if late:
+                # an answer that is merely slow delays everything behind it (the exchange waits for it); if a LATER datagram was
+                # answered the server had moved on: the missing answer was never sent
+                miss = [k for k, (w, p) in enumerate(zip(want, per)) if w and not p]
+                if any(per[j] for j in range(miss[0] + 1, len(per))):
+                    late = False
             run.case(h64(('loopback-dgram', front, repr(case))), True,
                      sample={'kind': 'real UDP sockets', 'front': front, 'requests': len(want), 'answers': len(got),
                              'verdict': 'identical to the in-process run' if ok else 'differs'}, sample_class=('loopback-dgram', front))
